@@ -6,6 +6,8 @@
 //!   ripobs <hex>          stage-C observation of the BGI state after the stream (+ canvas hashes)
 //!   ripobs2 <hex>         ripobs + line style / thickness / canvas after three epilogue lines (extension: line family)
 //!   ripline <9 ints> <coords…>  Bgi::{line, rectangle, draw_poly, draw_poly_line} called directly (see fn ripline)
+//!   igsobs <hex>          stage-C observation of the IGS parser + DrawExecutor (extension: IGS tokenizer / pixel kernel)
+//!   igsdrain <hex> <n>    drain a pending loop for up to n further get_next_action calls
 //!   igs    <hex>          feed the bytes to a fresh igs::Parser + DrawExecutor, draining at most 64 loop steps per char
 //!
 //! The engine prints to stdout from a few places (`println!` in the default `Command::run`, IGS loop parameter
@@ -288,6 +290,65 @@ fn igs(args: &[&str]) -> Obs {
     Ok(v)
 }
 
+/// extension (IGS tokenizer + pixel kernel): `igsobs <hex>` — the igs protocol (at most 64 get_next_action calls after every
+/// character, stopping at the first None), observation [err count; loop steps; width; height; picture length; picture hash]
+fn igsobs(args: &[&str]) -> Obs {
+    let _q = Quiet::new();
+    let exe: Arc<Mutex<Box<dyn icy_engine::igs::CommandExecutor>>> = Arc::new(Mutex::new(Box::<icy_engine::igs::DrawExecutor>::default()));
+    let mut p = icy_engine::igs::Parser::new(exe.clone());
+    let (mut buf, mut caret) = new_buf();
+    let mut err = 0i64;
+    let mut steps = 0i64;
+    for b in unhex(args[0]) {
+        if p.print_char(&mut buf, 0, &mut caret, char::from(b)).is_err() {
+            err += 1;
+        }
+        for _ in 0..64 {
+            if p.get_next_action(&mut buf, &mut caret, 0).is_none() {
+                break;
+            }
+            steps += 1;
+        }
+    }
+    let res = exe.lock().unwrap().get_resolution();
+    let mut v = vec![err, steps, res.width as i64, res.height as i64];
+    match p.get_picture_data() {
+        Some((_, px)) => v.extend([px.len() as i64, hash(&px)]),
+        None => v.extend([-1, -1]),
+    }
+    Ok(v)
+}
+
+/// `igsdrain <hex> <n>`: feed the stream (same protocol), then call get_next_action up to n more times;
+/// [steps during the stream; further steps; 1 if the loop ended (None) within n calls else 0]
+fn igsdrain(args: &[&str]) -> Obs {
+    let _q = Quiet::new();
+    let exe: Arc<Mutex<Box<dyn icy_engine::igs::CommandExecutor>>> = Arc::new(Mutex::new(Box::<icy_engine::igs::DrawExecutor>::default()));
+    let mut p = icy_engine::igs::Parser::new(exe.clone());
+    let (mut buf, mut caret) = new_buf();
+    let n: i64 = args.get(1).and_then(|s| s.parse().ok()).unwrap_or(1000);
+    let mut steps = 0i64;
+    for b in unhex(args[0]) {
+        let _ = p.print_char(&mut buf, 0, &mut caret, char::from(b));
+        for _ in 0..64 {
+            if p.get_next_action(&mut buf, &mut caret, 0).is_none() {
+                break;
+            }
+            steps += 1;
+        }
+    }
+    let mut more = 0i64;
+    let mut ended = 0i64;
+    for _ in 0..n {
+        if p.get_next_action(&mut buf, &mut caret, 0).is_none() {
+            ended = 1;
+            break;
+        }
+        more += 1;
+    }
+    Ok(vec![steps, more, ended])
+}
+
 /// attribution of a stall / abort inside a sequence: one chunk per command, progress on stderr (the driver reports the last
 /// stderr line of a worker that died), CPU milliseconds per chunk on success
 fn timed(lang: &str, args: &[&str]) -> Obs {
@@ -330,6 +391,8 @@ pub fn run(kind: &str, args: &[&str]) -> Option<Obs> {
         "ripobs2" => ripobs2(args),
         "ripline" => ripline(args),
         "igs" | "igsseq" => igs(args),
+        "igsobs" => igsobs(args),
+        "igsdrain" => igsdrain(args),
         "riptime" => timed("rip", args),
         "igstime" => timed("igs", args),
         _ => return None,
